@@ -2,6 +2,7 @@ import N2k.Lemmas.IsoRequestOut
 import N2k.Lemmas.IsoRequestContent
 import N2k.Lemmas.IsoRequestRetry
 import N2k.Lemmas.IsoRequestRun
+import N2k.Lemmas.IsoRequestBus
 import N2k.Props.C01
 /-!
 # C08 — ISO requests (PGN 59904) are always answered: data for the mandatory PGNs, NAK otherwise
@@ -476,8 +477,9 @@ which the request is handled, i.e. after that poll's `SendFrames` and `SendPendi
 * a request for another node's address draws nothing.
 
 What is MISSING for the full statement (hence `_partial`): this is the message level — "handed to `SendMsg`". That an
-accepting driver makes `SendMsg` succeed and puts the frames on the bus is proved per message (`C08_nak_on_bus`, C01,
-C11) but not composed over the history; the delayed case is `C08_owed_product_*` / `C08_owed_config_*` below, whose fairness hypothesis speaks about the retry
+accepting driver with an empty queue puts the answer on the bus at once is `C08_answer_on_bus_partial` for the
+single-frame answers (address claim, NAK); for the fast-packet answers it is C01's per-message theorem, not composed
+with the history; the delayed case is `C08_owed_product_*` / `C08_owed_config_*` below, whose fairness hypothesis speaks about the retry
 timer being due at a poll, not about the driver;
 "nothing is answered twice" is proved as "one block per request" here plus `C08_no_retry_after_success`, not as a
 count over the frames on the bus (a fast packet cut by a refusal is repeated in full by the retry). -/
@@ -540,6 +542,98 @@ theorem C08_refused_product_arms (n : Node) (m : Msg) (h : Option Handler) (i : 
     rw [ics_source] at this ⊢
     simp only [afterProd] at this ⊢
     exact this
+
+/-- **C08_refused_config_arms.** The twin for the configuration information: an addressed request for 126998 (something
+being configured) to a device that is not claiming, whose hand-over `SendMsg` refuses, establishes `InvC`: the retry
+timer holds `now + 187 + 10·source` and the device is flagged. -/
+theorem C08_refused_config_arms (n : Node) (m : Msg) (h : Option Handler) (i : Nat) (d : Dev) (x : DevX)
+    (hdst : m.dst ≠ 255) (hfind : findSourceDeviceIndex n.st.devs m.dst = some i)
+    (hd : n.st.devs[i]? = some d) (hx : n.ext[i]? = some x)
+    (hnc : (isAddressClaimStarted n.st.flavor n.st.now d).2 = false)
+    (hP : requestedPGN m = 126998) (hany : n.conf.any = true)
+    (href : (sendMsg { n.st with devs := updDev n.st.devs i (isAddressClaimStarted n.st.flavor n.st.now d).1 }
+              (configMsg (isAddressClaimStarted n.st.flavor n.st.now d).1 n.conf) (some i)).2 = false) :
+    InvC n.st.flavor i (Sched.fromNow n.st.flavor n.st.now (187 + d.source * 10)) (handleISORequest n m h).1 := by
+  unfold handleISORequest
+  rw [if_neg hdst, hfind]
+  simp only [respond, hd, hx, hnc, Bool.false_eq_true, ↓reduceIte]
+  unfold answer
+  rw [hP, if_neg (by decide), if_neg (by decide), if_neg (by decide), if_pos ⟨rfl, hany⟩]
+  have hd1 := getElem?_updDev_self n.st.devs i d (isAddressClaimStarted n.st.flavor n.st.now d).1 hd
+  unfold sendConfigurationInformation
+  simp only [hd1]
+  have hcn : confOrNak (isAddressClaimStarted n.st.flavor n.st.now d).1 n.conf =
+      configMsg (isAddressClaimStarted n.st.flavor n.st.now d).1 n.conf := by simp [confOrNak, hany]
+  refine ⟨?_, afterConf n.st false d.source x, ?_, by simp [afterConf], by simp [afterConf]⟩
+  · exact (finishConf_same _ _ _ _).1.1
+  · have := finishConf_get { n with st := { n.st with devs := updDev n.st.devs i (isAddressClaimStarted n.st.flavor n.st.now d).1 } }
+      i (isAddressClaimStarted n.st.flavor n.st.now d).1.source
+      (confOrNak (isAddressClaimStarted n.st.flavor n.st.now d).1 n.conf) x hx
+    rw [hcn] at this ⊢
+    rw [href] at this
+    rw [ics_source] at this ⊢
+    simp only [afterConf] at this ⊢
+    exact this
+
+/-- **C08_answer_on_bus_partial.** One level below the message level, for the single-frame answers: when the request is
+handled in a state whose driver accepts and whose send queue is empty (`Accepting`), on a node that may send, by a device
+with a valid address that is not claiming, then
+* a request for 60928 puts exactly one more frame at the driver: identifier priority 6 / PGN 60928 / destination 255 /
+  source = the device's address, DLC 8, the NAME little-endian;
+* a request for a PGN the library does not serve, no handler installed, puts exactly one more frame at the driver:
+  priority 6 / PGN 59392 / destination = requester / source = the device's address, DLC 8, `01 FF FF FF FF` + the PGN;
+and the node is still `Accepting` afterwards (so the next request of the history finds the same situation).
+MISSING (hence `_partial`): the fast-packet answers (126464, 126996, 126998) — their frames are C01's
+`C01_fast_packet_stream` per message, not composed here — and handler-sent messages. -/
+theorem C08_answer_on_bus_partial (n : Node) (m : Msg) (i : Nat) (d : Dev) (x : DevX)
+    (hdst : m.dst ≠ 255) (hfind : findSourceDeviceIndex n.st.devs m.dst = some i)
+    (hd : n.st.devs[i]? = some d) (hx : n.ext[i]? = some x)
+    (hnc : (isAddressClaimStarted n.st.flavor n.st.now d).2 = false)
+    (hsrc : d.source ≤ 251) (hr : m.src < 256) (hl : n.st.listenOnly = false) (hacc : Accepting n.st) :
+    (requestedPGN m = 60928 → isFastPacketPGN n.st.lists 60928 = false → ∀ h,
+      (handleISORequest n m h).1.st.drv.sent = n.st.drv.sent ++ [⟨Spec.canId 6 60928 d.source 255, 8, le64 d.name⟩] ∧
+      Accepting (handleISORequest n m h).1.st) ∧
+    (requestedPGN m ≠ 60928 → requestedPGN m ≠ 126464 → requestedPGN m ≠ 126996 →
+      ¬ (requestedPGN m = 126998 ∧ n.conf.any = true) → isFastPacketPGN n.st.lists 59392 = false →
+      (handleISORequest n m none).1.st.drv.sent =
+        n.st.drv.sent ++ [⟨Spec.canId 6 59392 d.source m.src, 8, ackData 1 0xff (requestedPGN m)⟩] ∧
+      Accepting (handleISORequest n m none).1.st) := by
+  have hd1 := getElem?_updDev_self n.st.devs i d (isAddressClaimStarted n.st.flavor n.st.now d).1 hd
+  have hnc1 : (isAddressClaimStarted n.st.flavor n.st.now (isAddressClaimStarted n.st.flavor n.st.now d).1).2 = false := by
+    rw [ics_idem]; exact hnc
+  have hs1 : (isAddressClaimStarted n.st.flavor n.st.now d).1.source ≤ 251 := by rw [ics_source]; exact hsrc
+  constructor
+  · intro hP hfp h
+    have key := sendMsg_single_accepting
+      { n.st with devs := updDev n.st.devs i (isAddressClaimStarted n.st.flavor n.st.now d).1 }
+      (claimMsg (isAddressClaimStarted n.st.flavor n.st.now d).1) i _ hd1 hs1 (by simp [claimMsg]) hl hnc1 hacc
+      (by simp [claimMsg]) hfp (by simp [claimMsg]) (by simp [claimMsg]) (fun _ => by simp [claimMsg])
+    unfold handleISORequest
+    rw [if_neg hdst, hfind]
+    simp only [respond, hd, hx, hnc, Bool.false_eq_true, ↓reduceIte]
+    unfold answer
+    rw [hP, if_pos rfl]
+    refine ⟨?_, key.2.2.1⟩
+    show (sendMsg _ _ (some i)).1.drv.sent = _
+    rw [key.2.1]
+    have hz : (60928 &&& 0xff) = 0 := by decide
+    simp [claimMsg, hz, ics_source, ics_name, le64, range8]
+  · intro h1 h2 h3 h4 hfp
+    have key := sendMsg_single_accepting
+      { n.st with devs := updDev n.st.devs i (isAddressClaimStarted n.st.flavor n.st.now d).1 }
+      (nakMsg m.src (requestedPGN m)) i _ hd1 hs1 (by simp [nakMsg]; exact hr) hl hnc1 hacc
+      (by simp [nakMsg]) hfp (by simp [nakMsg]) (by simp [nakMsg]) (fun _ => by simp [nakMsg])
+    unfold handleISORequest
+    rw [if_neg hdst, hfind]
+    simp only [respond, hd, hx, hnc, Bool.false_eq_true, ↓reduceIte]
+    unfold answer
+    rw [if_neg h1, if_neg h2, if_neg h3, if_neg h4]
+    simp only [dflt, ↓reduceIte]
+    refine ⟨?_, key.2.2.1⟩
+    show (sendMsg _ _ (some i)).1.drv.sent = _
+    rw [key.2.1]
+    have hz : (59392 &&& 0xff) = 0 := by decide
+    simp [nakMsg, hz, ics_source, ackData, le3]
 
 /-- **C08_owed_product_invariant.** While the product information of device `i` is owed (`Inv`: its retry timer is
 armed with `v` and the device is flagged), NO history can lose it: after any events — further requests to this or other
@@ -638,6 +732,10 @@ example : ((handleISORequest demoNode (demoRq 34 4711) none).2.map fun o => (o.d
 -- the NAK reaches the driver with the device's address as source
 example : (handleISORequest demoNode (demoRq 34 4711) none).1.st.drv.sent =
     [⟨0x18E80722, 8, [1, 255, 255, 255, 255, 103, 18, 0]⟩] := by decide
+-- C08_answer_on_bus_partial: the demo node accepts, its queue is empty, 59392/60928 are not declared fast packet
+example : Accepting demoNode.st ∧ isFastPacketPGN demoNode.st.lists 59392 = false ∧
+    isFastPacketPGN demoNode.st.lists 60928 = false ∧ demoDev.source ≤ 251 ∧ demoNode.st.listenOnly = false :=
+  ⟨⟨rfl, rfl, rfl⟩, by decide, by decide, by decide, rfl⟩
 -- C08_nak_format
 example : (3 ≤ (demoRq 34 4711).len ∧ (demoRq 34 4711).len ≤ 8) ∧ (demoRq 34 4711).data = 103 :: 18 :: 0 :: [] := by decide
 -- C08_silent_while_claiming
